@@ -1,7 +1,7 @@
 """Per-check metadata from which bin/mkmanifest writes MANIFEST.json."""
 
-HOOK_COMMITS = ["3c48510", "e2e1b97", "035de92", "8d2dfbb"]
-FIX_COMMITS = ["4036763", "5f5d3b9", "e0b60a8", "6cf1e6b", "6eae605", "8378524"]
+HOOK_COMMITS = ["3c48510", "e2e1b97", "035de92", "8d2dfbb", "87c61cc", "5f32c19"]
+FIX_COMMITS = ["4036763", "5f5d3b9", "e0b60a8", "6cf1e6b", "6eae605", "8378524", "a71bd21", "3012537", "59d973f", "aa35bd8", "58124f2", "9fc07cf"]
 
 NOTES = ("One engine: TLA+ specifications under spec/, TLC for the design, Go harness (harness/) for conformance. "
          "Exit 2 (INFRA-ERROR) is never a verdict. known_findings.json lists recorded genuine defects.")
@@ -68,5 +68,32 @@ CHECKS = {
                 "in-package audit walks the four indexes, counters, hook registries and group maps, and STATS/SERVER/BOUNDS/KEYS/SCAN/SEARCH/"
                 "WITHIN/INTERSECTS/NEARBY are compared with a recomputation from the retrievable objects.",
         "note": "Per-geometry points/bounds are calibrated on a server holding only that object; in_memory_size is recomputed in-package only.",
+    },
+    "C07": {
+        "level": "model_checking",
+        "technique": "TLA+ Locking spec model-checked (intended, deviations, and the class table observed on the real server); concurrent executions recorded in lock order through hooks and validated against the sequential Keyspace spec run by TLC (code->model)",
+        "text": "TLC checks NoConflict / MutatorsHoldW / ReadersHoldLock for all interleavings of 3 clients with the intended class table, shows that the "
+                "historical deviations break them, and re-checks with the table observed in the runs. Concurrent clients (2-8, plain and multi-object "
+                "commands, JSON documents, EVAL/EVALRO/EVALNA scripts) run TLC-generated programs on both lock implementations; hooks stamp each "
+                "command and script call with its position in the order the server lock was held and the lock mode; TLC runs the Keyspace model "
+                "along that order (KeyspaceOrder) and every reply, the final dataset, the lock mode of every changing step, the log (= logged "
+                "commands in lock order), real-time precedence and script windows are compared.",
+        "note": "Schedules on the real code are what the OS scheduler produces; design-level interleavings are exhaustive. Live fences / background expiry are covered at design level and by C05/C14.",
+    },
+    "C12": {
+        "level": "model_checking",
+        "technique": "TLA+ operator specs Glob / FieldOrder / Filters; TLC enumerates every pattern of the bound with its complete match set and every filter/query case (model->code: glob.Match in-package and every range-shortcut user on real servers holding the whole string universe); glob.Parse limits are recorded and judged by TLC against RangeSound (code->model)",
+        "text": "TLC enumerates all byte patterns (<=3 quick, <=4 thorough, 11-byte alphabet incl. 00/ff and all metacharacters) and all concatenations of whole glob terms with their match sets over all strings <=3, checking on the design that a sound range shortcut exists, literals match themselves, malformed patterns match nothing. Every case is compared with glob.Match on every (pattern,string) pair and with KEYS, SCAN MATCH ASC/DESC (+COUNT), SEARCH MATCH ASC/DESC (+COUNT), PDEL, HOOKS, CHANS, PDELHOOK, PDELCHAN on servers whose keys/ids/values/hook/channel names are the whole universe. The limits returned by the real glob.Parse are judged by TLC (RangeSound under each walk). FieldOrder/Filters: every WHERE min/max (incl. exclusive), operator, WHEREIN pair over a 22-value table of all kinds (missing = 0) and every family x MATCH x WHERE x WHEREIN x WHEREEVAL x ASC/DESC combination on all datasets over 2 (quick) / 3 (thorough) slots mixing points and strings, compared as IDS and as COUNT without LIMIT.",
+        "note": "Byte alphabet without valid multi-byte UTF-8. As coded where the statement is silent: NaN incomparable, bytes >=0x80 inside a class are malformed. Known finding: limits of a literal prefix ending in 0xff (pinned by the repository's own glob_test.go).",
+    },
+    "C18": {
+        "level": "model_checking",
+        "technique": "TLA+ Scripts spec model-checked; TLC-derived schedules forced with the script.call gate on real servers; script-heavy concurrent runs validated in lock order by TLC; reachable script globals enumerated and judged against the TLA+ allow-list",
+        "text": "TLC checks ScriptAtomic / RoNoWriteInside / RONeverWrites for EVAL, EVALRO, EVALNA against a concurrent reader/writer and derives, per "
+                "configuration, whether the other command may take effect while the script is between two calls; each case is forced on a real "
+                "server (script parked by the gate) on both lock implementations. Script-heavy concurrent runs are validated in lock order "
+                "(KeyspaceOrder: replies, final state, windows, log). Sandbox: the globals reachable in every pooled interpreter, enumerated from Go "
+                "before and after 17 adversarial scripts, must equal ScriptEnv!AllowList (judged by TLC).",
+        "note": "Cannot prove that an allow-listed function has no escape inside gopher-lua. Known findings: pooled interpreters keep script-made mutations of library tables / existing globals.",
     },
 }
